@@ -16,7 +16,7 @@ from .calc import Poly, Rat, Unsupported
 from .facts import strip, peel_refs, pat_bindings, lit_number
 
 TINY = Fraction(1, 10 ** 6)
-PASS = {"as_single_targets", "as_targets", "as_multi_targets", "view", "to_owned", "clone", "iter", "into_iter", "to_vec", "unwrap", "ok_or", "ok_or_else",
+PASS = {"with_lapack", "without_lapack", "as_single_targets", "as_targets", "as_multi_targets", "view", "to_owned", "clone", "iter", "into_iter", "to_vec", "unwrap", "ok_or", "ok_or_else",
         "expect", "copied", "cloned", "into_owned", "reborrow", "into_scalar", "borrow", "as_ref", "into", "deref", "to_f32", "to_f64",
         "as_slice", "as_slice_memory_order", "insert_axis", "into_shape", "reshape", "flatten", "into_dimensionality", "unwrap_or_default"}
 ELEMFN = ("abs", "ln", "sqrt", "clip", "exp")
@@ -42,6 +42,9 @@ class Formula:
         self.opaque_elem = {}      # argument-less methods that return a sequence: name -> element atom
         self.opaque_any = {}       # methods (any arguments) read as one element-wise atom each: name -> atom
         self.skip_early_returns = False   # read the fall-through path only: `if .. { return .. }` statements are other paths
+        self.let_override = {}     # local id -> V: a `let` whose initialiser is classified by the caller (a running extremum)
+        self.general_branch = False   # under a zero test (exact or with a tolerance) read the branch for the non-zero case
+        self.bool_env = {}         # local id of a bool parameter -> the value to read the code for
 
     # ---- atoms
     def is_elem_atom(self, a):
@@ -263,6 +266,29 @@ class Formula:
             sc = strip(e["scrut"])
             if sc.get("k") == "Call" and sc["args"]:
                 return self.expr(c, sc["args"][0], env)
+        if k == "Struct":
+            out = {}
+            for f_ in e.get("fields") or []:
+                try:
+                    out[f_["name"]] = self.expr(c, f_["e"], env)
+                except Unsupported:
+                    out[f_["name"]] = V("scal", self.atom("opaque:" + f_["name"]))
+            return V("struct", out)
+        if k == "If" and peel_refs(e.get("c") or {}).get("k") == "Path" and peel_refs(e["c"]).get("local") in self.bool_env and e.get("else") is not None:
+            return self.expr(c, e["then"] if self.bool_env[peel_refs(e["c"])["local"]] else e["else"], env)
+        if k == "If" and self.general_branch and e.get("else") is not None:
+            from .zeroskip import zero_test_kind
+            zk = zero_test_kind(c, e["c"])
+            if zk is not None:
+                cnd = strip(e["c"])
+                neg = False
+                while cnd.get("k") == "Unary" and cnd["op"] == "!":
+                    cnd, neg = strip(cnd["e"]), not neg
+                if cnd.get("k") == "Binary" and cnd["op"] == "!=":
+                    neg = not neg
+                if cnd.get("k") == "MethodCall" and cnd["name"] in ("ne", "abs_diff_ne", "relative_ne", "ulps_ne"):
+                    neg = not neg
+                return self.expr(c, e["then"] if neg else e["else"], env)
         if k == "If":
             if self.is_err(c, e.get("then")) and e.get("else") is not None:
                 return self.expr(c, e["else"], env)
@@ -283,6 +309,8 @@ class Formula:
             if nm in ELEMFN and len(e["args"]) == 1:
                 v = self.expr(c, e["args"][0], env)
                 return V(v.kind, self.fn_atom(nm, v.r))
+            if nm in ("zeros", "ones") and d and d.get("krate") == "ndarray":
+                return V("elem", Rat.const(0 if nm == "zeros" else 1))
             if nm in ("neg_infinity", "infinity", "min_value", "max_value"):
                 return V("scal", self.atom(nm))
             if nm in ("cast", "from", "from_usize", "from_f64", "from_f32", "from_u32", "from_u64", "from_i32", "aview1", "Array1::from", "from_vec") and len(e["args"]) == 1:
@@ -320,6 +348,9 @@ class Formula:
                 bs = list(pat_bindings(p_))
                 if len(bs) != 1:
                     raise Unsupported("let pattern")
+                if bs[0]["local"] in self.let_override:
+                    env[bs[0]["local"]] = self.let_override[bs[0]["local"]]
+                    continue
                 env[bs[0]["local"]] = self.expr(c, s0["init"], env)
             elif s0.get("k") in ("Match", "If", "Block") and self.is_assertion(c, s0):
                 continue
@@ -399,9 +430,10 @@ class Formula:
         rhs = assigned(body)
         if rhs is None and body.get("k") == "If" and body.get("else") is not None:
             from .zeroskip import zero_test_kind
-            if zero_test_kind(c, body["c"]) == "exact":
+            zk = zero_test_kind(c, body["c"])
+            if zk == "exact" or (zk is not None and self.general_branch):
                 cnd = strip(body["c"])
-                neg = cnd.get("k") == "Binary" and cnd["op"] == "!="
+                neg = (cnd.get("k") == "Binary" and cnd["op"] == "!=") or (cnd.get("k") == "Unary" and cnd["op"] == "!")
                 rhs = assigned(body["then"] if neg else body["else"])
         if rhs is None:
             return False
@@ -481,6 +513,12 @@ class Formula:
         from .facts import walk
         if s0.get("k") == "If" and s0.get("else") is None and self.is_err(c, s0.get("then")):
             return True
+        if s0.get("k") == "If" and self.is_err(c, s0.get("then")) and s0.get("else") is not None:
+            e2 = strip(s0["else"])
+            while e2.get("k") == "Block" and not e2["stmts"] and e2.get("e") is not None:
+                e2 = strip(e2["e"])
+            if e2.get("k") == "If" and self.is_assertion(c, e2):
+                return True
         for y in walk(s0):
             if y.get("k") == "Call":
                 f = strip(y["f"])
@@ -583,6 +621,9 @@ class Formula:
             if cv == Fraction(1, 2):
                 return V(recv.kind, self.fn_atom("sqrt", recv.r))
             raise Unsupported("power")
+        if nm == "map_axis" and len(args) == 2 and strip(args[1]).get("k") == "Closure":
+            col = V("elem", self.atom("col", elem=True))
+            return V("elem", self.closure_apply(c, args[1], [col], env).r)
         if nm in ("sum_axis", "mean_axis") and len(args) == 1 and recv.kind == "elem2":
             ax = peel_refs(args[0])
             axv = None
